@@ -689,7 +689,7 @@ fn sequences(tier: &str, seed: u64, mut f: impl FnMut(&[Vec<u8>]) -> bool) {
 fn prefixed_docs(seed: u64, n: usize) -> Vec<Vec<Vec<u8>>> {
     // children and attributes whose qualified-name order differs from their local-name order
     let mut rng = Rng(seed ^ 0xc09);
-    let names = ["z:alpha", "b:zeta", "m", "k:beta", "plain", "a:omega"];
+    let names = ["z:alpha", "b:zeta", "m", "k:beta", "plain", "a:omega", "Beta", "apple", "Zed"];
     let attrs = ["z:p", "a:q", "n", "y:a", "ns:id", "s:must", "lns:w", "mlns:v", "xmlns:ns"];
     let mut out = Vec::new();
     for _ in 0..n {
@@ -1039,6 +1039,9 @@ fn check_c11(nodes: &[Node]) -> Option<(Vec<Vec<u8>>, String)> {
         ("attribute values and text replaced", Style { alt_values: true, ..Style::default() }),
         ("text replaced by a reference to an entity declared in the DOCTYPE", Style { entity_text: true, ..Style::default() }),
         ("character data moved after the child elements", Style { text_last: true, ..Style::default() }),
+        ("text replaced by the parent's tag name", Style { name_text: 1, ..Style::default() }),
+        ("text replaced by the element's first attribute name", Style { name_text: 2, ..Style::default() }),
+        ("all text replaced by one and the same word", Style { name_text: 3, ..Style::default() }),
     ];
     for (nm, st) in &variants {
         let alt: Vec<Vec<u8>> = nodes.iter().map(|n| write_doc(n, st).into_bytes()).collect();
@@ -1096,7 +1099,7 @@ fn search_c11(tier: &str, seed: u64) {
     let mut rng = Rng(seed ^ 0xc11);
     for _ in 0..(if thorough { 20000 } else { 2000 }) {
         let k = 1 + rng.below(2);
-        seqs.push((0..k).map(|_| random_doc(&mut rng, &["a", "b", "c"], &["x", "y"], 3, 8)).collect());
+        seqs.push((0..k).map(|_| random_doc(&mut rng, &["a", "b", "c"], &["x", "h:c", "y"], 3, 8)).collect());
     }
     for s in &seqs {
         let key = s.iter().map(|n| write_doc(n, &Style::default())).collect::<Vec<_>>().join(" ; ");
